@@ -26,6 +26,8 @@ const QSETS: &[QuerySet] = &[
     QuerySet { id: "stmt0", lang: "stmt", tags: include_str!("stmt_tags.scm"), locals: "" },
     // nested names (queue order by (end, start)) and names spanning rows
     QuerySet { id: "stmtn", lang: "stmt", tags: include_str!("stmtn_tags.scm"), locals: "" },
+    // docs: after the node, second strip regex, no selection, selection relative to @name, shared kind name
+    QuerySet { id: "stmtd", lang: "stmt", tags: include_str!("stmtd_tags.scm"), locals: "" },
     // a match that arrives after later names were flushed (corpus only)
     QuerySet { id: "stmto", lang: "stmt", tags: include_str!("stmto_tags.scm"), locals: "" },
 ];
@@ -33,6 +35,7 @@ const QSETS: &[QuerySet] = &[
 fn strip_id(re: &str) -> usize {
     match re {
         "^//[ \t]*" => 0,
+        "^/+\\s?" => 1,
         _ => panic!("c18: strip regex {re:?} has no model (add it to TsVerif.C18.stripFn)"),
     }
 }
@@ -456,7 +459,7 @@ fn stmts(rng: &mut Rng, lay: &Layout, depth: usize, indent: usize, budget: &mut 
                     // doc comments (only meaningful at a line start; still legal elsewhere)
                     let k = rng.range(1, 3);
                     for j in 0..k {
-                        s.push_str(pk(rng, &["// ", "//", "//\t ", "//  "]));
+                        s.push_str(pk(rng, &["// ", "//", "//\t ", "//  ", "/// ", "////", "//\u{a0}", "//\u{3000} ", "// \u{2003}"]));
                         s.push_str(pk(rng, &["doc", "sets the value", "données €", "😀 first", "x", ""]));
                         s.push_str(lay.nl);
                         if j + 1 < k && rng.chance(1, 6) {
@@ -474,6 +477,19 @@ fn stmts(rng: &mut Rng, lay: &Layout, depth: usize, indent: usize, budget: &mut 
                 s.push_str(pk(rng, &[" = ", "=", " =\t"]));
                 expr(rng, 2, s);
                 s.push(';');
+                if rng.chance(1, 4) {
+                    // docs AFTER the node: on the same row and on the following rows (query set stmtd)
+                    let k = rng.range(1, 3);
+                    for j in 0..k {
+                        s.push_str(if j == 0 { " " } else { "" });
+                        s.push_str(pk(rng, &["// ", "//", "/// ", "//\u{a0}\u{a0}", "////\t"]));
+                        s.push_str(pk(rng, &["after", "trailing €", "", "t"]));
+                        s.push_str(lay.nl);
+                        if rng.chance(1, 5) {
+                            s.push_str(lay.nl);
+                        }
+                    }
+                }
             }
             3 | 4 => {
                 expr(rng, 3, s);
@@ -689,7 +705,7 @@ fn main() {
     let (n_stmt, n_lst, n_fn) = if thorough { (4000, 1500, 40000) } else { (260, 120, 3000) };
     for k in 0..(n_stmt + n_lst) {
         let (qid, (src, class)) = if k < n_stmt {
-            (if k % 9 == 8 { "stmt0" } else if k % 9 == 4 || k % 9 == 6 { "stmtn" } else { "stmt" }, gen_stmt(&mut rng))
+            (match k % 9 { 8 => "stmt0", 4 | 6 => "stmtn", 5 | 7 => "stmtd", _ => "stmt" }, gen_stmt(&mut rng))
         } else {
             ("lst", gen_lst(&mut rng))
         };
